@@ -198,7 +198,9 @@ class DtdMapper:
             restrictions = cls.build_restrictions(content.occur, **kwargs)
             cls.build_element(target, content.name, restrictions)
         elif content_type == DtdContentType.SEQ:
-            cls.build_content_tree(target, content, **kwargs)
+            params = cls.build_sequence_occurs(content.occur)
+            params.update(**kwargs)
+            cls.build_content_tree(target, content, **params)
         elif content_type == DtdContentType.OR:
             params = cls.build_occurs(content.occur)
             params.update(
@@ -255,6 +257,20 @@ class DtdMapper:
             "min_occurs": min_occurs,
             "max_occurs": max_occurs,
         }
+
+    @classmethod
+    def build_sequence_occurs(cls, occur: DtdContentOccur) -> dict:
+        """Return the occurrence overrides a sequence group imposes on its children.
+
+        The members of an optional group are optional and
+        the members of a repeating group can repeat.
+        """
+        params = {}
+        if occur in (DtdContentOccur.OPT, DtdContentOccur.MULT):
+            params["min_occurs"] = 0
+        if occur in (DtdContentOccur.MULT, DtdContentOccur.PLUS):
+            params["max_occurs"] = sys.maxsize
+        return params
 
     @classmethod
     def build_restrictions(cls, occur: DtdContentOccur, **kwargs: Any) -> Restrictions:
